@@ -165,19 +165,29 @@ theorem caseBPs_ok (sw : String) : ∀ (cs : Cases) (s : St) (bps : List BP) (s'
 
 /-! ### the block of a case -/
 
-theorem case_block_shape {hjbs : List BP} {cf : Bool} {bodyM : M (List LItem)} (hret : Ret (fun r => loneJump r = none) bodyM)
+/-- the block of a case handler: folded into the header jumps (the body is one `Jump`), or with its labels -/
+theorem case_block_shape {hjbs : List BP} {cf : Bool} {bodyM : M (List LItem)}
     {sa sc : St} {blk : Blk} (h : blockOf hjbs cf false bodyM sa = .ok (blk, sc)) :
-    ∃ ops sb sL eB, bodyM sa = .ok (ops, sb) ∧ SameStk sb sc ∧ blk.items = [.label sL false] ++ ops ++ [.label eB false] ∧
-      blk.start = some sL ∧ HdrsTo (fun b => if b.positive then sL else eB) hjbs blk.hdrs := by
+    ∃ ops sb, bodyM sa = .ok (ops, sb) ∧ SameStk sb sc ∧
+      ((∃ l eB, hjbs ≠ [] ∧ loneJump ops = some (some l) ∧ blk.items = [.label eB false] ∧ blk.start = some l ∧
+          HdrsTo (fun _ => l) hjbs blk.hdrs) ∨
+       (∃ sL eB, blk.items = [.label sL false] ++ ops ++ [.label eB false] ∧
+          blk.start = some sL ∧ HdrsTo (fun b => if b.positive then sL else eB) hjbs blk.hdrs)) := by
   simp only [blockOf, bind_ok] at h
   obtain ⟨ops, sb, h1, h2⟩ := h
-  have hl := hret _ _ _ h1
   obtain ⟨hst, hshape⟩ := processBlock_shape h2
-  rcases hshape with ⟨l, hsc, _⟩ | ⟨_, sL, js, hitems, hstart, _, hjs, hh⟩
-  · simp only [shortcutOf, hl] at hsc
-    split at hsc <;> cases hsc
+  refine ⟨ops, sb, h1, hst, ?_⟩
+  rcases hshape with ⟨l, hsc, hitems, hstart, hh⟩ | ⟨_, sL, js, hitems, hstart, _, hjs, hh⟩
+  · refine .inl ⟨l, _, ?_, ?_, hitems, hstart, hh⟩
+    · intro he
+      subst he
+      simp [shortcutOf] at hsc
+    · simp only [shortcutOf] at hsc
+      split at hsc
+      · exact hsc
+      · cases hsc
   · rcases hjs with ⟨rfl, _⟩ | ⟨o, _, hc⟩
-    · exact ⟨ops, sb, sL, _, h1, hst, by simpa using hitems, hstart, hh⟩
+    · exact .inr ⟨sL, _, by simpa using hitems, hstart, hh⟩
     · simp at hc
 
 end ESV.Comp
